@@ -11,7 +11,7 @@
    NOT mechanised: completeness of the generalised spectrum (that the selected eigenvectors are the
    leading ones) -- per-instance certificate. *)
 From Coq Require Import List Reals.
-From ML Require Import Ops Vec VecR MatR Mahalanobis MahalanobisR C09Proof.
+From ML Require Import Ops Vec VecR MatR LinAlg Mahalanobis MahalanobisR C09Proof CovProof.
 Import ListNotations.
 Open Scope R_scope.
 
@@ -25,3 +25,10 @@ Definition C09_proved_part : Prop :=
 Theorem C09_partial : C09_proved_part.
 Proof. exact (conj lfda_shortcut_eq_pairwise factor_distance_unique). Qed.
 Print Assumptions C09_partial.
+
+(* the matrix Covariance (pseudo-)inverts is the sample covariance: along every direction x its quadratic form is the
+   (n-1)-normalised sum of squared deviations of the projected samples x . x_i from their mean *)
+Theorem C09_covariance_is_variance : forall d (X : Rm) (x : Rv), X <> [] -> Forall (wfvR d) X -> wfvR d x ->
+  quadformR (covR 1 X) x = ssd (mvmulR X x) / INR (length X - 1).
+Proof. intros d X x. exact (cov_quadform d 1 X x). Qed.
+Print Assumptions C09_covariance_is_variance.
